@@ -75,10 +75,10 @@ def run(ctx):
             bal, sup, problems = analyse_path(ctx, p, "execute", variant, BAL, TOK)
             key = "execute/%s" % variant
             sites = [d.eff.site for d in bal + sup]
-            for d in bal:
-                n_bal_writes.add((d.eff.site[2], d.eff.site[1], d.eff.op))
-            for d in sup:
-                n_tok_writes.add((d.eff.site[2], d.eff.site[1], d.eff.op))
+            for k_, d in enumerate(bal):
+                n_bal_writes.add(("execute", variant, k_))
+            for k_, d in enumerate(sup):
+                n_tok_writes.add(("execute", variant, k_))
             trivial = not bal and not sup
             # R01.4 / R01.3 per write
             for d in bal + sup:
@@ -136,10 +136,10 @@ def run(ctx):
             continue
         tokw = [e for e in p.effects if e.kind == "write" and e.item == TOK]
         balw = [e for e in p.effects if e.kind == "write" and e.item == BAL]
-        for e in balw:
-            n_bal_writes.add((e.site[2], e.site[1], e.op))
-        for e in tokw:
-            n_tok_writes.add((e.site[2], e.site[1], e.op))
+        for k_, e in enumerate(balw):
+            n_bal_writes.add(("instantiate", None, k_))
+        for k_, e in enumerate(tokw):
+            n_tok_writes.add(("instantiate", None, k_))
         key = "instantiate"
         if len(tokw) != 1:
             ctx.ob("R01.5", key, False, detail="instantiate Ok-path with %d TOKEN_INFO writes" % len(tokw),
@@ -171,8 +171,8 @@ def run(ctx):
     # helpers reachable from no entry point are not transactions; but public functions writing BALANCES
     # that are not reached are listed for the reader
     ctx.floor("R01.1", "balance-moving ExecuteMsg variants", len([v for v in moving if v in EXPECT]), 7)
-    ctx.floor("R01.4", "BALANCES write sites", len(n_bal_writes), 12)
-    ctx.floor("R01.4", "TOKEN_INFO write sites", len(n_tok_writes), 5)
+    ctx.floor("R01.4", "BALANCES writes (entry, variant, ordinal)", len(n_bal_writes), 12)
+    ctx.floor("R01.4", "TOKEN_INFO writes (entry, variant, ordinal)", len(n_tok_writes), 5)
     check_ovf(ctx)
 
 
